@@ -406,7 +406,7 @@ func (v *Val) DSL() string {
 
 func (a *Act) DSL() string {
 	switch a.K {
-	case "ret", "write", "ss", "sbs", "us", "ubs":
+	case "ret", "write", "wstr", "ss", "sbs", "us", "ubs":
 		return sx(a.K, hxs(a.S))
 	case "panic":
 		return sx("panic", a.Args[0].DSL())
